@@ -3,6 +3,8 @@
 package zzverif
 
 import (
+	"fmt"
+
 	lucene "github.com/grindlemire/go-lucene"
 	"github.com/grindlemire/go-lucene/pkg/lucene/expr"
 )
@@ -40,7 +42,7 @@ func leafForms() []int {
 		for i := 0; i < lfCount; i++ {
 			all = append(all, i)
 		}
-		return append(all, lfEmptyQuoted, lfNonASCII, lfEqSpecial, lfListInt, lfRangeBig, lfEqBig, lfWildField, lfQuotedDigits, lfRangeMixed, lfQuotedWild, lfQuotedRegexp, lfFloatWhole, lfEqHuge, lfRegexpBackslash, lfNonASCII3)
+		return append(all, lfEmptyQuoted, lfNonASCII, lfEqSpecial, lfListInt, lfRangeBig, lfEqBig, lfWildField, lfQuotedDigits, lfRangeMixed, lfQuotedWild, lfQuotedRegexp, lfFloatWhole, lfEqHuge, lfRegexpBackslash, lfNonASCII3, lfFloatExp, lfRangeQuotedSpace, lfListNested)
 	}
 	if rtParam("LEAVES") == 7 { // default-field alphabet: the full one plus quoted bare terms with wildcard characters
 		all := make([]int, 0, lfCount+2)
@@ -55,6 +57,9 @@ func leafForms() []int {
 			all = append(all, i)
 		}
 		return append(all, lfRangeFloat, lfRangeWhole, lfListInt)
+	}
+	if rtParam("LEAVES") == 12 { // value lists whose parentheses nest to the right / to the left, next to a plain list
+		return []int{lfList, lfListNested, lfListLeftNested}
 	}
 	if rtParam("LEAVES") == 11 { // an exclusive and an inclusive range (closed by } and ]) next to plain terms
 		return []int{lfEqStr, lfRangeExcl, lfBare}
@@ -210,7 +215,22 @@ func lastTokenIsTerm(n *node, parenthesised bool) bool {
 // parse the trees must be identical. A rejected juxtaposition is informational.
 func H_TreeJuxtapose() {
 	oneDigitInts = rtParam("ONEDIGIT") == 1
-	t := genTree(rtParam("D"), treeOps(), leafForms())
+	var t *node
+	if rtParam("GROUP") == 1 { // the whole tree is the value of a field group x:( ... ) over bare terms
+		t = &node{kind: nGroup, field: holeField(), l: genTree(rtParam("D"), []int{nAnd, nNot, nMustNot}, []int{lfBare})}
+	} else {
+		t = genTree(rtParam("D"), treeOps(), leafForms())
+	}
+	dfn := ""
+	if rtParam("DF") == 1 {
+		dfn = "F" // not a field of any generated query
+	}
+	parse := func(q string) (*expr.Expression, error) {
+		if dfn != "" {
+			return lucene.Parse(q, lucene.WithDefaultField(dfn))
+		}
+		return lucene.Parse(q)
+	}
 	ands := collect(t, nAnd, nil)
 	if len(ands) == 0 {
 		rtAssume(false)
@@ -226,8 +246,8 @@ func H_TreeJuxtapose() {
 	juxt := printNode(t, 0, &printOpts{juxt: map[*node]bool{gap: true}})
 	rtObserve("explicit", explicit)
 	rtObserve("juxt", juxt)
-	e1, err1 := lucene.Parse(explicit)
-	e2, err2 := lucene.Parse(juxt)
+	e1, err1 := parse(explicit)
+	e2, err2 := parse(juxt)
 	if err1 != nil || e1 == nil {
 		rtReach("explicit-rejected")
 		return
@@ -245,7 +265,7 @@ func H_TreeJuxtapose() {
 		return
 	}
 	rtReach("both-parse")
-	rtAssert("juxt-same-tree", e1.String() == e2.String() && matchTree(e2, t, ""))
+	rtAssert("juxt-same-tree", e1.String() == e2.String() && fmt.Sprintf("%#v", e1) == fmt.Sprintf("%#v", e2) && matchTree(e2, t, dfn))
 }
 
 // H_TreeLayout (C09): layout variants of the same tree parse to the same tree.
@@ -334,6 +354,8 @@ func H_TreeDefaultField() {
 		df = string([]byte{' ', holeByte("df", "ABCDEFGHIJKLMNOPQRSTUVWXYZ")})
 	case 3: // trailing white space too
 		df = string([]byte{holeByte("df", "ABCDEFGHIJKLMNOPQRSTUVWXYZ"), '\t'})
+	case 4: // characters the renderers refuse or escape in a column name: parsing does not look at them
+		df = string([]byte{holeByte("df", "ABCDEFGHIJKLMNOPQRSTUVWXYZ"), holeByte("df", "\"\\*?:()")})
 	}
 	if rtParam("DFKIND") >= 2 {
 	} else if rtParam("DFKIND") == 0 {
